@@ -229,7 +229,13 @@ def d3(ctx, prog, s):
                   'preprocess list stored as given (single callable wrapped in a list)', sp.where())
     b = cont.methods['batches']
     cs = [c for c in ast.walk(b.node) if isinstance(c, ast.Call) and prog.dotted(b.mod, c.func) == f'{CT}._TracesBatchIterable']
-    good = len(cs) == 1 and norm(kw(cs[0], 'ths')) == 'self._ths' and norm(kw(cs[0], 'frame')) == 'self.frame' and norm(kw(cs[0], 'preprocesses')) == 'self.preprocesses'
+    it0 = prog.need_class(CT, '_TracesBatchIterable').methods['__init__']
+    ip = [p_ for p_ in it0.params if p_ != 'self']
+
+    def arg_(name):
+        v = argof(cs[0], name, ip.index(name)) if name in ip else None
+        return norm(v) if v is not None else None
+    good = len(cs) == 1 and arg_('ths') == 'self._ths' and arg_('frame') == 'self.frame' and arg_('preprocesses') == 'self.preprocesses'
     ctx.check(bool(good), 'C02-D3', f'{b.key}::forwards', 'batches() does not forward the whole trace set, the frame and the preprocess list unchanged', 'batches() forwards ths, frame, preprocesses unchanged', b.where())
     it = prog.need_class(CT, '_TracesBatchIterable')
     init = it.methods['__init__']
@@ -296,12 +302,28 @@ def d5(ctx, prog):
                 ctx.check(good, 'C02-D5', key, f'`results` is written by {f.qualname} as `{norm(st.value)[:50]}`; the only writer must be _BaseAnalysis.compute_results = self.compute()',
                           'results = self.compute() in _BaseAnalysis.compute_results', f.where(st))
             else:
-                good = f.key == f'{AB}:BaseAttack.compute_results' and norm(st.value) == 'self.discriminant(self.results)'
+                # single-assignment locals at the top level of the body are expanded; each must be read after the refresh as well
+                body = [s for s in f.node.body if not (isinstance(s, ast.Expr) and isinstance(s.value, ast.Constant))]
+                nstores = {}
+                for n_ in ast.walk(f.node):
+                    if isinstance(n_, ast.Name) and isinstance(n_.ctx, ast.Store):
+                        nstores[n_.id] = nstores.get(n_.id, 0) + 1
+                ldefs = {s.targets[0].id: s for s in body if isinstance(s, ast.Assign) and len(s.targets) == 1 and isinstance(s.targets[0], ast.Name) and nstores.get(s.targets[0].id) == 1}
+                used = []
+                import copy as _copy
+
+                class Exp(ast.NodeTransformer):
+                    def visit_Name(self, n):
+                        if isinstance(n.ctx, ast.Load) and n.id in ldefs:
+                            used.append(ldefs[n.id])
+                            return self.visit(_copy.deepcopy(ldefs[n.id].value))
+                        return n
+                value = Exp().visit(_copy.deepcopy(st.value))
+                good = f.key == f'{AB}:BaseAttack.compute_results' and norm(value) == 'self.discriminant(self.results)'
                 if good:
-                    body = [s for s in f.node.body if not (isinstance(s, ast.Expr) and isinstance(s.value, ast.Constant))]
                     idx_super = next((i for i, s in enumerate(body) if 'super().compute_results()' in norm(s)), None)
-                    idx_store = next((i for i, s in enumerate(body) if s is st), None)
-                    good = idx_super is not None and idx_store is not None and idx_super < idx_store
+                    idx_first = min((i for i, s in enumerate(body) if s is st or any(s is u for u in used)), default=None)
+                    good = idx_super is not None and idx_first is not None and idx_super < idx_first
                 ctx.check(good, 'C02-D5', key, f'`scores` is written by {f.qualname} as `{norm(st.value)[:50]}`; it must be self.discriminant(self.results) computed after super().compute_results()',
                           'scores = discriminant(results) after the results were refreshed', f.where(st))
     ctx.floor('writers of results/scores', sum(len(v) for v in writers.values()), 4)
